@@ -3,6 +3,7 @@ package main
 import (
 	"encoding/json"
 	"fmt"
+	"os"
 	"sort"
 	"strings"
 )
@@ -319,4 +320,47 @@ func (e *Evidence) write(path string) error {
 		},
 	}
 	return writeJSON(path, doc)
+}
+
+// showCmd prints a replay file in readable form.
+func showCmd(path string) int {
+	data, err := os.ReadFile(path)
+	if err != nil {
+		fmt.Fprintln(os.Stderr, err)
+		return 2
+	}
+	var rf ReplayFile
+	if err := json.Unmarshal(data, &rf); err != nil {
+		fmt.Fprintln(os.Stderr, "replay file:", err)
+		return 2
+	}
+	fmt.Printf("property %s  VERIF_SEED %d  build %s  reproducible %v  minimised %v  runs %d\n", rf.Property, rf.VerifSeed, rf.Build, rf.Reproducible, rf.Minimised, len(rf.Runs))
+	if rf.Note != "" {
+		fmt.Println("note:", rf.Note)
+	}
+	for i, s := range rf.Runs {
+		d := describeSpec(s)
+		fmt.Printf("--- run %d (seed %d, mode %v, cold %v)\n", i, s.Seed, d["mode"], d["cold"])
+		for _, o := range d["objects"].([]string) {
+			fmt.Println("   ", o)
+		}
+		for _, p := range d["programs"].([]string) {
+			fmt.Println("   ", p)
+		}
+		fmt.Println("    scheduler:", d["scheduler"])
+		for _, sw := range s.Sched.Replay {
+			kind := "preempt"
+			if sw.Forced {
+				kind = "blocked/finished"
+			}
+			fmt.Printf("      switch: task %d at entry %d, yield %d -> task %d (%s)\n", sw.T, sw.Op, sw.At, sw.To, kind)
+		}
+	}
+	for _, v := range rf.Violation {
+		fmt.Printf("violation %s [%s] %s/%s world=%s task=%d entry=%d\n  expected: %s\n  actual:   %s\n  %s\n", v.Oracle, v.Clause, v.Op, v.Kind, v.World, v.Task, v.OpIdx, v.Expected, v.Actual, v.Detail)
+	}
+	if rf.RaceReport != "" {
+		fmt.Println(rf.RaceReport)
+	}
+	return 0
 }
